@@ -374,15 +374,16 @@ CLAIMED['C09'] = dict(
          "coincide step by step). REFUTED (advisory, coq/Refuted/C09_repair_undone.v, known finding "
          "C09-repair-undone-by-upstream-write): the unrestricted repair clause — the formula stays attached, a write to "
          "a precedent resets the cell and the failure returns. 9 theorems closed under the global context. Restriction: "
-         "no stored results (a failing build can leave a new range node empty under a dependant holding its stored "
-         "value). ORACLE-ONLY: the error class clause beyond the model's two classes (pending operator error variant, "
+         "no stored results — REFUTED without it (advisory, coq/Refuted/C09_stored_results.v; reproduced on the "
+         "implementation with an .xlsx that has a cached value for the dependant only: the retry returns the stored "
+         "value; inert predicate C09-stored-partial-retry-returns-stored, reported). ORACLE-ONLY: the error class clause beyond the model's two classes (pending operator error variant, "
          "repaired in /repo by 38e0ba9), iterative mode (known finding C09-iterative-wip-stuck; C06's model), CSE arrays "
-         "and cycles. Correspondence per quick run: 500 generated workbooks (C01 generator, often extended by a cell that "
+         "and cycles. Correspondence per quick run: 1200 generated workbooks (C01 generator, often extended by a cell that "
          "reads 2-3 ranges) with 1-3 cells replaced by an unknown function (whole formula or right operand of +) or a "
          "plugin function switched between raising/returning or armed to raise from its k-th call, x 8-14 operations "
          "(evaluate any cell or range, set_value on inputs, repair writes on failing cells): raised-or-returned, the "
-         "pycel error class, the value and the whole cell-map snapshot are compared after every operation (~5500 "
-         "operations, ~750 failed evaluations); a mutation of the range evaluation order is detected.",
+         "pycel error class, the value and the whole cell-map snapshot are compared after every operation (~13000 "
+         "operations, ~1800 failed evaluations); a mutation of the range evaluation order is detected.",
     design_ref="DESIGN.md 5 C09",
 )
 
